@@ -294,6 +294,11 @@ Proof.
   - apply kA_emit, kA_set_nacq, kA_upd.
     destruct (b_stack _); [exact K|apply kA_wakeup_next, K].
 Qed.
+Lemma kA_acquire_cancelled t i late s0 s : keepA s0 s -> keepA s0 (acquire_cancelled t i late s).
+Proof.
+  intros K. unfold acquire_cancelled. apply kA_emit, kA_set_nacq, kA_upd.
+  destruct late; [destruct (b_stack _); [exact K|apply kA_wakeup_next, K]|apply kA_upd, K].
+Qed.
 Lemma kA_prune_cont t i acc s0 s : keepA s0 s -> keepA s0 (prune_cont t i acc s).
 Proof.
   intros K. unfold prune_cont. destruct (_ && _); [apply kA_upd, K|].
@@ -542,7 +547,7 @@ Proof.
     cbn in St. destruct (ready s) as [|k r] eqn:Er; inversion St; subst; clear St.
     set (s0 := set_ready r (set_outs [] s)).
     assert (Hh : harmless k = true -> Inv1 s0) by (intros; eapply Inv1_pop; eauto).
-    destruct k as [t d|t i ok|i|cid i res nodb|f c to|i c p br|did c a ok|t d|t i acc ok|t|t|t|t i]; cbn [run_kont].
+    destruct k as [t d|t i ok|i|cid i res nodb|f c to|i c p br|did c a ok|t d|t i acc ok|t|t|t|t i late]; cbn [run_kont].
     + eapply keepA_Inv1; [apply kA_acquire_start, keepA_refl|apply Hh; reflexivity].
     + eapply keepA_Inv1; [apply kA_acquire_wake, keepA_refl|apply Hh; reflexivity].
     + (* KConnStart *)
@@ -600,7 +605,7 @@ Proof.
     + eapply keepA_Inv1; [apply kA_gather_cb, keepA_refl|apply Hh; reflexivity].
     + eapply keepA_Inv1; [apply kA_emit, keepA_refl|apply Hh; reflexivity].
     + eapply keepA_Inv1; [apply kA_emit, keepA_refl|apply Hh; reflexivity].
-    + eapply keepA_Inv1; [|apply Hh; reflexivity]. unfold acquire_cancelled. apply kA_emit, kA_set_nacq, kA_upd, keepA_refl.
+    + eapply keepA_Inv1; [apply kA_acquire_cancelled, keepA_refl|apply Hh; reflexivity].
 Qed.
 
 (* ================================================================== aspect 2: ownership *)
@@ -2292,6 +2297,24 @@ Proof.
   - rewrite IH. reflexivity.
 Qed.
 
+Lemma wres_remove_done t ws : flat_map wk_res (remove_done t ws) = flat_map wk_res ws.
+Proof.
+  induction ws as [|[t' [|acc|]] r IH]; cbn [remove_done flat_map]; try reflexivity.
+  - rewrite IH. reflexivity.
+  - rewrite IH. reflexivity.
+  - destruct (t' =? t)%N; cbn [flat_map]; [reflexivity|]. rewrite IH. reflexivity.
+Qed.
+Lemma Own_acquire_cancelled t i late h hl hp s : Own h hl hp s -> Own h hl hp (acquire_cancelled t i late s).
+Proof.
+  intros O. unfold acquire_cancelled. apply Own_emit, Own_set_nacq.
+  set (s2 := if late then _ else _).
+  assert (O2 : Own h hl hp s2).
+  { subst s2. destruct late; [destruct (b_stack _); [exact O|apply Own_wakeup_next, O]|].
+    apply Own_upd_same with (i := i); [exact O|]. unfold blk_same, wres. bsimp. repeat split; try reflexivity.
+    apply wres_remove_done. }
+  apply Own_upd_same with (i := i); [exact O2|unfold blk_same; bsimp; repeat split; reflexivity].
+Qed.
+
 Lemma step_Own s e o s' : OwnI s -> step s e o = Some s' -> OwnI s'.
 Proof.
   unfold OwnI. intros O St.
@@ -2366,7 +2389,7 @@ Proof.
   - (* ERun *)
     cbn in St. destruct (ready s) as [|k r] eqn:Er; inversion St; subst; clear St.
     pose proof (Own_pop _ _ _ O Er) as Op.
-    destruct k as [t d|t i ok|i|cid i res nodb|f c to|i c p br|did c a ok|t d|t i acc ok|t|t|t|t i];
+    destruct k as [t d|t i ok|i|cid i res nodb|f c to|i c p br|did c a ok|t d|t i acc ok|t|t|t|t i late];
       cbn [run_kont kont_res kont_limbo kont_promise] in *.
     + apply Own_acquire_start, Op.
     + apply Own_acquire_wake, Op.
@@ -2380,8 +2403,7 @@ Proof.
     + apply Own_gather_cb, Op.
     + apply Own_emit, Op.
     + apply Own_emit, Op.
-    + unfold acquire_cancelled. apply Own_emit, Own_set_nacq.
-      apply Own_upd_same with (i := i); [exact Op|unfold blk_same; bsimp; repeat split; reflexivity].
+    + apply Own_acquire_cancelled, Op.
 Qed.
 
 Lemma Own_init mx : OwnI (init mx).
@@ -2420,7 +2442,7 @@ Proof.
   - cbn in St. destruct (ready s) as [|k r] eqn:Er; inversion St; subst; clear St.
     set (s0 := set_ready r (set_outs [] s)).
     assert (R : forall x, keepA s0 x -> maxc x = maxc s) by (intros x K; rewrite (kA_maxc _ _ K); reflexivity).
-    destruct k as [t d|t i ok|i|cid i res nodb|f c to|i c p br|did c a ok|t d|t i acc ok|t|t|t|t i]; cbn [run_kont].
+    destruct k as [t d|t i ok|i|cid i res nodb|f c to|i c p br|did c a ok|t d|t i acc ok|t|t|t|t i late]; cbn [run_kont].
     + apply R, kA_acquire_start, keepA_refl.
     + apply R, kA_acquire_wake, keepA_refl.
     + reflexivity.
@@ -2439,7 +2461,7 @@ Proof.
     + apply R, kA_gather_cb, keepA_refl.
     + reflexivity.
     + reflexivity.
-    + reflexivity.
+    + apply R, kA_acquire_cancelled, keepA_refl.
 Qed.
 
 (* ================================================================== reachable states *)
@@ -2621,7 +2643,7 @@ Lemma broken_conns_len s : zlen (broken_conns s) = nbroken s.
 Proof.
   unfold broken_conns, nbroken. rewrite zlen_app, zlen_map. f_equal.
   - induction (ready s) as [|k r IH]; [reflexivity|]. cbn [flat_map]. rewrite zlen_app, cnt_cons, IH.
-    destruct k as [t d|t i ok|i|cid i res nodb|f c0 to|i c0 p br|did c0 a ok|t d|t i acc ok|t|t|t|t i]; cbn [kont_broken is_bstart b2z]; try destruct br; cbn [b2z]; rewrite ?zlen_cons, ?zlen_nil; lia.
+    destruct k as [t d|t i ok|i|cid i res nodb|f c0 to|i c0 p br|did c0 a ok|t d|t i acc ok|t|t|t|t i late]; cbn [kont_broken is_bstart b2z]; try destruct br; cbn [b2z]; rewrite ?zlen_cons, ?zlen_nil; lia.
   - induction (infl_disc s) as [|e r IH]; [reflexivity|]. cbn [flat_map filter]. rewrite zlen_app, IH.
     unfold infl_broken, is_binfl. destruct (snd (snd e)) as [to|p [|]]; rewrite ?zlen_cons, ?zlen_nil; lia.
 Qed.
@@ -2672,7 +2694,7 @@ Lemma kont_broken_le p l : zoccP p (flat_map kont_broken l) <= zoccP p (kres l).
 Proof.
   unfold kres. induction l as [|k r IH]; cbn [flat_map]; [lia|].
   rewrite !zoccP_app. assert (zoccP p (kont_broken k) <= zoccP p (kont_res k)); [|lia].
-  destruct k as [t d|t i ok|i|cid i res nodb|f c0 to|i c0 p0 br|did c0 a ok|t d|t i acc ok|t|t|t|t i]; cbn [kont_broken kont_res]; rewrite ?zoccP_nil; try apply zoccP_nonneg; try lia.
+  destruct k as [t d|t i ok|i|cid i res nodb|f c0 to|i c0 p0 br|did c0 a ok|t d|t i acc ok|t|t|t|t i late]; cbn [kont_broken kont_res]; rewrite ?zoccP_nil; try apply zoccP_nonneg; try lia.
   destruct br; rewrite ?zoccP_nil; [lia|apply zoccP_nonneg].
 Qed.
 Lemma p_broken_are_open mx s : 0 <= mx -> reach mx s ->
@@ -2956,6 +2978,16 @@ Proof.
     apply dk_eq with (s := upd (set_b_nwait (b_nwait (get_blk i s2) - 1) (get_blk i s2)) s2); try reflexivity.
     apply dk_upd; [bsimp; rewrite get_blk_id; same_keys|exact K2].
 Qed.
+Lemma dk_acquire_cancelled t i late s0 s : dk s0 s -> dk s0 (acquire_cancelled t i late s).
+Proof.
+  intros K. unfold acquire_cancelled, emit.
+  set (s2 := if late then _ else _).
+  assert (K2 : dk s0 s2).
+  { subst s2. destruct late; [destruct (b_stack _); [exact K|apply dk_wakeup_next, K]|].
+    apply dk_upd; [bsimp; rewrite get_blk_id; same_keys|exact K]. }
+  apply dk_eq with (s := upd (set_b_nwait (b_nwait (get_blk i s2) - 1) (get_blk i s2)) s2); try reflexivity.
+  apply dk_upd; [bsimp; rewrite get_blk_id; same_keys|exact K2].
+Qed.
 Lemma dk_prune_cont t i acc s0 s : dk s0 s -> dk s0 (prune_cont t i acc s).
 Proof.
   intros K. unfold prune_cont. destruct (_ && _); [apply dk_upd; [bsimp; rewrite get_blk_id; same_keys|exact K]|].
@@ -3169,7 +3201,7 @@ Proof.
     { split; cbn; auto.
       - intros b' Hb c Hc. exists b'. auto.
       - intros k0 Hk _. rewrite Er. right. exact Hk. }
-    destruct k as [t d|t i ok|i|cid i res nodb|f c to|i c p br|did c a ok|t d|t i acc ok|t|t|t|t i]; cbn [run_kont].
+    destruct k as [t d|t i ok|i|cid i res nodb|f c to|i c p br|did c a ok|t d|t i acc ok|t|t|t|t i late]; cbn [run_kont].
     + eapply dk_DbI; [apply dk_acquire_start, Kp|exact D].
     + eapply dk_DbI; [apply dk_acquire_wake, Kp|exact D].
     + eapply dk_DbI; [|exact D]. unfold call_connect, emit. apply dk_eq with (s := s0); try reflexivity. exact Kp.
@@ -3217,9 +3249,7 @@ Proof.
     + eapply dk_DbI; [apply dk_gather_cb, Kp|exact D].
     + eapply dk_DbI; [|exact D]. apply dk_eq with (s := s0); try reflexivity. exact Kp.
     + eapply dk_DbI; [|exact D]. apply dk_eq with (s := s0); try reflexivity. exact Kp.
-    + eapply dk_DbI; [|exact D]. unfold acquire_cancelled, emit.
-      apply dk_eq with (s := upd (set_b_nwait (b_nwait (get_blk i s0) - 1) (get_blk i s0)) s0); try reflexivity.
-      apply dk_upd; [bsimp; rewrite get_blk_id; same_keys|exact Kp].
+    + eapply dk_DbI; [apply dk_acquire_cancelled, Kp|exact D].
 Qed.
 
 Lemma DbI_init mx : DbI (init mx).
@@ -3249,6 +3279,7 @@ Definition is_wok (i : bid) (k : kont) : bool :=
   match k with
   | KAcqWake _ j true => bid_eqb i j
   | KPruneWake _ j _ true => bid_eqb i j
+  | KAcqWakeC _ j true => bid_eqb i j      (* cancelled after its waiter was completed: passes the wake-up on *)
   | _ => false
   end.
 Definition nwok (s : pool) (i : bid) : Z := cnt (is_wok i) s.(ready).
@@ -3705,22 +3736,60 @@ Proof.
   unfold has_pending. induction ws as [|[t' [|acc|]] r IH]; cbn [mark_done existsb is_done snd negb]; auto.
   all: try (destruct (t' =? t)%N; cbn [existsb is_done snd negb]; auto).
 Qed.
-Lemma cnt_wok_cancel i t l : existsb (late_ok t) l = false -> cnt (is_wok i) (map (cancel_kont t) l) = cnt (is_wok i) l.
+Lemma cnt_wok_cancel i t l : cnt (is_wok i) l <= cnt (is_wok i) (map (cancel_kont t) l).
 Proof.
-  induction l as [|k l IH]; cbn [existsb map]; [reflexivity|]. intros H. apply orb_false_iff in H as [Hk Hl].
-  rewrite !cnt_cons, (IH Hl). f_equal. f_equal.
-  destruct k; cbn in *; try reflexivity; destruct (_ =? _)%N; try reflexivity.
-  destruct ok; [discriminate|reflexivity].
+  induction l as [|k l IH]; cbn [map]; [lia|]. rewrite !cnt_cons.
+  assert (b2z (is_wok i k) <= b2z (is_wok i (cancel_kont t k))); [|lia].
+  destruct k; cbn; try lia; destruct (_ =? _)%N; cbn; try lia.
+  destruct ok; cbn; [lia|]. destruct (bid_eqb i b); cbn; lia.
+Qed.
+Lemma has_pending_remove_done t ws : has_pending (remove_done t ws) = true -> has_pending ws = true.
+Proof.
+  unfold has_pending. induction ws as [|[t' [|acc|]] r IH]; cbn [remove_done existsb is_done snd negb]; auto.
+  destruct (t' =? t)%N; cbn [existsb is_done snd negb]; auto.
+Qed.
+(* passing the wake-up on while block i is one wake-up short *)
+Lemma W_wakeup_next_d i s : NoDup (map b_id s.(blocks)) -> Wd i s -> W (wakeup_next i s).
+Proof.
+  intros ND Hd. unfold wakeup_next. destruct (drop_done (b_waiters (get_blk i s))) as [|w ws] eqn:Ew.
+  - apply (Wd_fix i); [exact ND|exact Hd|bsimp; apply get_blk_id|]. intros Hne. cbn in Hne. discriminate.
+  - assert (Hdn : is_done w = false) by (eapply drop_done_head; eauto).
+    destruct (find_bid i (blocks s)) as [b|] eqn:Ef.
+    2: { rewrite (get_blk_stale _ _ Ef) in Ew. discriminate. }
+    rewrite (get_blk_live _ _ _ Ef) in *.
+    assert (Eb : b_id b = i) by (eapply find_bid_id; eauto).
+    intros x Hx Hne. unfold push, upd in Hx. cbn in Hx.
+    apply In_upd_blk_nodup in Hx as [->|[Hx Hn]]; [| |exact ND].
+    + bsimp. rewrite Eb, nwok_push_wake; [|exact Hdn].
+      assert (Hp : has_pending (b_waiters b) = true).
+      { rewrite <- has_pending_drop, Ew. unfold has_pending. cbn [existsb]. rewrite Hdn. reflexivity. }
+      pose proof (Hd b (find_bid_In _ _ _ Ef) Hp) as P. rewrite Eb, bid_eqb_refl in P.
+      unfold nwok at 1. cbn [ready upd set_blocks]. fold (nwok s i). lia.
+    + pose proof (Hd x Hx Hne) as P.
+      assert (E : bid_eqb (b_id x) i = false) by (apply bid_eqb_neq; cbn in Hn; congruence).
+      rewrite E in P. unfold nwok in *. cbn. rewrite cnt_app. pose proof (cnt_nonneg (is_wok (b_id x)) [wake_kont i w true]). lia.
+Qed.
+Lemma W_acquire_cancelled_late t i s : NoDup (map b_id s.(blocks)) -> Wd i s -> W (acquire_cancelled t i true s).
+Proof.
+  intros ND Hd. unfold acquire_cancelled, emit.
+  set (s2 := match b_stack (get_blk i s) with [] => s | _ :: _ => wakeup_next i s end).
+  assert (W2 : W s2).
+  { subst s2. destruct (b_stack (get_blk i s)) eqn:Es; [eapply Wd_W_empty; eauto|apply W_wakeup_next_d; assumption]. }
+  apply (W_eq (upd (set_b_nwait (b_nwait (get_blk i s2) - 1) (get_blk i s2)) s2)); try reflexivity. w_same i.
+Qed.
+Lemma W_acquire_cancelled_early t i s : W s -> W (acquire_cancelled t i false s).
+Proof.
+  intros Hw. unfold acquire_cancelled, emit.
+  set (s2 := upd _ s).
+  assert (W2 : W s2).
+  { subst s2. apply (W_upd_le _ i); [exact Hw|bsimp; apply get_blk_id|]. bsimp. intros Hne. split; [|lia].
+    eapply has_pending_remove_done; eauto. }
+  apply (W_eq (upd (set_b_nwait (b_nwait (get_blk i s2) - 1) (get_blk i s2)) s2)); try reflexivity. w_same i.
 Qed.
 
-(* a cancel is LATE when it hits a task whose waiter has already been woken successfully: the real
-   code then loses the wake-up (known finding C16-cancel-after-wakeup-loses-wakeup) *)
-Definition not_late (s : pool) (e : event) : Prop :=
-  match e with ECancel t => late_cancel s t = false | _ => True end.
-
-Lemma step_W s e o s' : OwnI s -> W s -> not_late s e -> step s e o = Some s' -> W s'.
+Lemma step_W s e o s' : OwnI s -> W s -> step s e o = Some s' -> W s'.
 Proof.
-  intros O Hw NL St.
+  intros O Hw St.
   assert (W0 : W (set_outs [] s)) by (apply (W_eq s); auto).
   destruct e; cbn [step] in St.
   - destruct (_ =? _)%N; inversion St; subst. apply W_push. apply (W_eq s); auto.
@@ -3733,10 +3802,10 @@ Proof.
   - destruct (tick_armed _); inversion St; subst. apply W_tick, W0.
   - destruct (_ <? _); inversion St; subst. apply W_run_gc, W0.
   - (* ECancel *)
-    unfold cancel in St. cbn [ready blocks set_outs] in St. cbn [not_late] in NL. unfold late_cancel in NL.
+    unfold cancel in St. cbn [ready blocks set_outs] in St.
     destruct (existsb (is_task t) (ready s)).
     + inversion St; subst; clear St. apply (W_mono s); [exact Hw|reflexivity|].
-      intros i. unfold nwok. cbn. rewrite cnt_wok_cancel; [lia|exact NL].
+      intros i. unfold nwok. cbn. apply cnt_wok_cancel.
     + destruct (find_waiting t (blocks s)) as [b|] eqn:Ef; [|discriminate]. inversion St; subst; clear St.
       apply W_push. apply W_upd; [exact W0|].
       intros Hne. cbn [b_waiters set_b_waiters] in Hne. apply has_pending_mark_done in Hne. bsimp.
@@ -3754,7 +3823,7 @@ Proof.
     assert (Wp : (forall j, is_wok j k = false) -> W s0).
     { intros Hk b Hb Hne. specialize (Hw b Hb Hne). unfold nwok in *. rewrite Er, cnt_cons, Hk in Hw. cbn [b2z] in Hw.
       change (ready s0) with r. lia. }
-    destruct k as [t d|t i ok|i|cid i res nodb|f c to|i c p br|did c a ok|t d|t i acc ok|t|t|t|t i]; cbn [run_kont].
+    destruct k as [t d|t i ok|i|cid i res nodb|f c to|i c p br|did c a ok|t d|t i acc ok|t|t|t|t i late]; cbn [run_kont].
     + apply W_acquire_start, Wp; intros; reflexivity.
     + destruct ok.
       * apply W_acquire_wake_ok; [exact ND|]. apply Hd. intros j Hj. cbn in Hj. apply bid_eqb_eq in Hj. exact Hj.
@@ -3778,29 +3847,22 @@ Proof.
     + apply W_gather_cb, Wp; intros; reflexivity.
     + apply (W_eq s0); auto; apply Wp; intros; reflexivity.
     + apply (W_eq s0); auto; apply Wp; intros; reflexivity.
-    + unfold acquire_cancelled, emit.
-      apply (W_eq (upd (set_b_nwait (b_nwait (get_blk i s0) - 1) (get_blk i s0)) s0)); try reflexivity.
-      assert (Wq : W s0) by (apply Wp; intros; reflexivity). w_same i.
+    + destruct late.
+      * apply W_acquire_cancelled_late; [exact ND|]. apply Hd. intros j Hj. cbn in Hj. apply bid_eqb_eq in Hj. exact Hj.
+      * apply W_acquire_cancelled_early, Wp; intros; reflexivity.
 Qed.
 
-(* runs in which no cancel hits an already woken task *)
-Inductive reachN (mx : Z) : pool -> Prop :=
- | reachN_init : reachN mx (init mx)
- | reachN_step s e o s' : reachN mx s -> not_late s e -> step s e o = Some s' -> reachN mx s'.
-Lemma reachN_reach mx s : reachN mx s -> reach mx s.
-Proof. induction 1; [apply reach_init|eapply reach_step; eauto]. Qed.
-
-Lemma reach_W mx s : 0 <= mx -> reachN mx s -> W s.
+Lemma reach_W mx s : 0 <= mx -> reach mx s -> W s.
 Proof.
-  intros Hm R. induction R as [|s e o s' R IH NL St]; [intros b []|].
-  destruct (reach_Inv _ _ Hm (reachN_reach _ _ R)) as (_ & O & _). eapply step_W; eauto.
+  intros Hm R. induction R as [|s e o s' R IH St]; [intros b []|].
+  destruct (reach_Inv _ _ Hm R) as (_ & O & _). eapply step_W; eauto.
 Qed.
 
 (* ---- C16: no lost wake-up (cancelled futures sitting in the deque do not count as waiters) *)
-Lemma p_no_lost_wakeup mx s b : 0 <= mx -> reachN mx s -> In b s.(blocks) ->
+Lemma p_no_lost_wakeup mx s b : 0 <= mx -> reach mx s -> In b s.(blocks) ->
   has_pending b.(b_waiters) = true -> zlen b.(b_stack) <= nwok s b.(b_id).
 Proof. intros Hm R Hb Hne. exact (reach_W _ _ Hm R b Hb Hne). Qed.
-Lemma p_quiescent_no_idle_with_waiters mx s b : 0 <= mx -> reachN mx s -> In b s.(blocks) -> s.(ready) = [] ->
+Lemma p_quiescent_no_idle_with_waiters mx s b : 0 <= mx -> reach mx s -> In b s.(blocks) -> s.(ready) = [] ->
   has_pending b.(b_waiters) = false \/ b.(b_stack) = [].
 Proof.
   intros Hm R Hb E. destruct (has_pending (b_waiters b)) eqn:Ew; [right|left; reflexivity].
@@ -3886,20 +3948,3 @@ Proof.
   pose proof (npipe_nonneg (b_id b) s). lia.
 Qed.
 
-(* executable version of "a run without late cancels" (for concrete examples) *)
-Definition not_lateb (s : pool) (e : event) : bool :=
-  match e with ECancel t => negb (late_cancel s t) | _ => true end.
-Fixpoint runN (s : pool) (evs : list (event * oracle)) : option pool :=
-  match evs with
-  | [] => Some s
-  | (e, o) :: r => if not_lateb s e then match step s e o with Some s' => runN s' r | None => None end else None
-  end.
-Lemma runN_reachN mx : forall evs s s', reachN mx s -> runN s evs = Some s' -> reachN mx s'.
-Proof.
-  induction evs as [|[e o] r IH]; intros s s' R E; cbn [runN] in E.
-  - inversion E; subst; exact R.
-  - destruct (not_lateb s e) eqn:NL; [|discriminate].
-    destruct (step s e o) as [s1|] eqn:St; [|discriminate]. eapply IH; [|exact E].
-    eapply reachN_step; [exact R| |exact St].
-    destruct e; cbn in *; auto. apply negb_true_iff in NL. exact NL.
-Qed.
